@@ -2,7 +2,7 @@
 import numpy as np
 import torch
 
-from harness import coqio, cparse, nets, compiled
+from harness import coqio, cparse, nets, compiled, gennet
 from harness.common import Check
 from translate import gatecode as t_gc, wrapper as t_wr
 
@@ -161,36 +161,7 @@ def run(ck: Check):
                 else:
                     ck.broke("correspondence", "validate_exhaustive", f"validator rejects {case['name']} but the mirror finds no failing input")
     # (iii) generator model: the parsed text IS gen_net (architecture), and the architecture is well formed -> C02_logic_net applies
-    gitems = [(idx, spec, p, case, nets.spatial_model_coq(spec)) for idx, spec, p, case, _ in items]
-    gitems = [g for g in gitems if g[4] is not None]
-    gchunks = [gitems[i:i + 6] for i in range(0, len(gitems), 6)]
-    gtexts = []
-    for chunk in gchunks:
-        txt = ("From Coq Require Import List Arith Bool ZArith. Import ListNotations.\n"
-               "From TLX Require Import Model.CLang Model.ConvNet Model.GenNet.\n")
-        for idx, spec, p, case, sm in chunk:
-            pg = dict(p, sizes=list(p["sizes"]) + ([0] if p["n_locals"] == 0 else []))   # no scalar temporaries: empty pseudo-array
-            txt += f"Definition m{idx} : spatial_model := {sm}.\nDefinition p{idx} : prog := {cparse.prog_coq(pg)}.\n"
-        txt += "Eval vm_compute in [" + "; ".join(
-            f"(prog_eqb p{idx} (gen_net m{idx}), wf_spatial_model m{idx}, "
-            f"match first_diff (body p{idx}) (body (gen_net m{idx})) 0 with Some d => Z.of_nat d | None => (-1)%Z end, "
-            f"list_eqb Nat.eqb (sizes p{idx}) (sizes (gen_net m{idx})))" for idx, *_ in chunk) + "].\n"
-        gtexts.append(txt)
-    for chunk, (rc, out, err) in zip(gchunks, ck.coq_eval_many("c02gen", gtexts, timeout=900, workers=12)):
-        if rc != 0:
-            ck.broke("correspondence", "generator model evaluation", err[-600:])
-            continue
-        for (idx, spec, p, case, sm), (eq, wf, d, szok) in zip(chunk, coqio.parse_evals(out)[0]):
-            ck.count("programs_equal_to_generator_model")
-            if not (eq and wf):
-                where = (f"statement {d}: {p['stmt_lines'][d]}" if 0 <= d < len(p["stmt_lines"]) else
-                         ("declared array sizes differ" if not szok else "statement count differs"))
-                ck.broke("correspondence", "Model/GenNet.gen_net vs get_c_code()",
-                         f"{case['name']} (W={case['W']}): " + ("architecture not well formed (wf_spatial_model = false)" if not wf else
-                                                              f"emitted text differs from the generator model at {where}"))
-    skipped = len(items) - len(gitems)
-    if skipped:
-        ck.notes.append(f"{skipped} stacks outside the generator model's fragment (validator only)")
+    gennet.check_generator(ck, [(idx, spec, p, case) for idx, spec, p, case, _ in items])
     ck.extra["programs"] = ck.distribution.get("programs_validated_in_kernel_for_all_inputs", 0) + ck.distribution.get("programs_safe_checked_in_kernel", 0)
     ck.extra["disagreements_checked"] = ck.distribution.get("rows_compared", 0)
     ck.extra["explanation"] = ("programs = emitted translation units parsed, compared syntactically with the proved generator model and checked by the verified validator inside the Coq kernel "
